@@ -12,14 +12,17 @@
 (*                                                                         *)
 (*  k = "op"     one construction  op(args) -> r  through the public API   *)
 (*     unelim  a sub-expression of the arguments that carries a non-       *)
-(*             eliminatable, non-relocatable annotation is never removed:  *)
-(*             it occurs in r (its own annotation list may have grown by   *)
-(*             relocation, nothing else may differ).  Reported as          *)
-(*             "unelim" when such an annotation is lost altogether (the    *)
-(*             deep set of the args is not a subset of that of r) and as   *)
-(*             "unelim-moved" when the annotation is still somewhere in r  *)
-(*             but the sub-expression that carried it was removed (a non-  *)
-(*             relocatable annotation was moved instead of the rewrite     *)
+(*             eliminatable, non-relocatable annotation is never removed.  *)
+(*             The contract is per annotation VALUE (operations.           *)
+(*             _handle_annotations compares deep sets): for every such     *)
+(*             annotation a of the arguments, SOME sub-expression that     *)
+(*             carried a still occurs in r (its own annotation list may    *)
+(*             have grown by relocation, nothing else may differ).         *)
+(*             Reported as "unelim" when a is lost altogether (the deep    *)
+(*             set of the args is not a subset of that of r) and as        *)
+(*             "unelim-moved" when a is still somewhere in r but none of   *)
+(*             the sub-expressions that carried it is (a non-relocatable   *)
+(*             annotation was moved to another node instead of the rewrite *)
 (*             being skipped; tests/test_annotations.py: const2.depth == 3)*)
 (*     reloc   every relocatable annotation carried by an argument (deep)  *)
 (*             is on top of r, itself or as its image under relocate()     *)
@@ -62,11 +65,11 @@ FailingOp(e) ==
   ELSE
   LET AN == NodesOf(e.args)
       RN == Nodes(e.r)
-      UN == {n \in AN : \E a \in Top(n) : IsU(a)}
+      UA == {a \in Deep(AN) : IsU(a)}
       RA == {a \in Deep(AN) : IsR(a)}
-      Carried(a) == \E n \in AN : a \in Top(n) /\ Survives(n, RN)
-      lost == ~({a \in Deep(AN) : IsU(a)} \subseteq Deep(RN))
-  IN (IF lost THEN {"unelim"} ELSE IF \A n \in UN : Survives(n, RN) THEN {} ELSE {"unelim-moved"})
+      Carried(a) == \E n \in AN : a \in Top(n) /\ Survives(n, RN)      \* some sub-expression that carried a is still there
+      lost == ~(UA \subseteq Deep(RN))
+  IN (IF lost THEN {"unelim"} ELSE IF \A a \in UA : Carried(a) THEN {} ELSE {"unelim-moved"})
      \cup (IF \A a \in RA : OnTop(a, e.r) THEN {} ELSE {"reloc"})
      \cup (IF \A a \in RA : Carried(a) \/ Img(a) \in Top(e.r) THEN {} ELSE {"reloc-image"})
 
